@@ -38,6 +38,7 @@ type invFunc struct {
 	Name    string   `json:"name"`
 	Recv    string   `json:"recv,omitempty"`
 	Sig     string   `json:"sig"`
+	SigU    string   `json:"sigu,omitempty"`
 	Callees []string `json:"callees,omitempty"`
 	Consts  []string `json:"consts,omitempty"`
 }
@@ -120,10 +121,14 @@ func describePkg(pk *packages.Package, dir string) invPkg {
 					return types.NewTuple(vs...)
 				}
 				rf.Sig = types.TypeString(types.NewSignatureType(nil, nil, nil, anon(sig.Params()), anon(sig.Results()), sig.Variadic()), qual)
+				// the same with every in-package named non-struct type replaced by its underlying type (a new
+				// `type allowList []*node` in a signature is still the old []*node)
+				rf.SigU = types.TypeString(types.NewSignatureType(nil, nil, nil, anonU(pk.Types, sig.Params()), anonU(pk.Types, sig.Results()), sig.Variadic()), qual)
 				if tp := sig.TypeParams(); tp != nil && tp.Len() > 0 {
 					rf.Sig = fmt.Sprintf("[%d]%s", tp.Len(), rf.Sig)
 				}
 				cs, ks := map[string]bool{}, map[string]bool{}
+				nLoops, nIfs, nIdx := 0, 0, 0
 				if d.Body != nil {
 					ast.Inspect(d.Body, func(n ast.Node) bool {
 						switch n := n.(type) {
@@ -136,6 +141,9 @@ func describePkg(pk *packages.Package, dir string) invPkg {
 								id = fx.Sel
 							}
 							if id != nil {
+								if bo, ok := pk.TypesInfo.Uses[id].(*types.Builtin); ok {
+									cs["builtin."+bo.Name()] = true
+								}
 								if fo, ok := pk.TypesInfo.Uses[id].(*types.Func); ok {
 									name := fo.Name()
 									if fo.Pkg() != nil && fo.Pkg() != pk.Types {
@@ -148,9 +156,19 @@ func describePkg(pk *packages.Package, dir string) invPkg {
 							if n.Kind == token.STRING {
 								ks[n.Value] = true
 							}
+						case *ast.RangeStmt, *ast.ForStmt:
+							nLoops++
+						case *ast.IfStmt:
+							nIfs++
+						case *ast.IndexExpr:
+							nIdx++
 						}
 						return true
 					})
+					// a coarse shape of the body, to tell apart functions of one signature that call nothing
+					cs[fmt.Sprintf("shape.loops=%d", nLoops)] = true
+					cs[fmt.Sprintf("shape.ifs=%d", min(nIfs, 4))] = true
+					cs[fmt.Sprintf("shape.index=%d", min(nIdx, 6))] = true
 				}
 				for c := range cs {
 					rf.Callees = append(rf.Callees, c)
@@ -491,7 +509,7 @@ func matchPkg(cur, ref invPkg) []anchorRename {
 				if _, done := funcMap[cf.Recv+"."+cf.Name]; done {
 					continue
 				}
-				if wordReplace(cf.Sig, typeMap) != rf.Sig {
+				if wordReplace(cf.Sig, typeMap) != rf.Sig && !(cf.SigU != "" && rf.SigU != "" && wordReplace(cf.SigU, typeMap) == rf.SigU) {
 					continue
 				}
 				var callees []string
@@ -711,4 +729,36 @@ func anchorOverlay(abs string, cfg Config) (map[string][]byte, []anchorRename, e
 		}
 	}
 	return overlay, uniq, nil
+}
+
+
+// anonU: the tuple without names, with in-package named types whose underlying type is not a struct
+// replaced by that underlying type (one level, also under pointers and slices).
+func anonU(pkg *types.Package, t *types.Tuple) *types.Tuple {
+	var strip func(x types.Type, d int) types.Type
+	strip = func(x types.Type, d int) types.Type {
+		if d > 4 {
+			return x
+		}
+		switch tt := x.(type) {
+		case *types.Named:
+			if tt.Obj().Pkg() == pkg {
+				if _, isStruct := tt.Underlying().(*types.Struct); !isStruct {
+					if _, isIface := tt.Underlying().(*types.Interface); !isIface {
+						return strip(tt.Underlying(), d+1)
+					}
+				}
+			}
+		case *types.Pointer:
+			return types.NewPointer(strip(tt.Elem(), d+1))
+		case *types.Slice:
+			return types.NewSlice(strip(tt.Elem(), d+1))
+		}
+		return x
+	}
+	var vs []*types.Var
+	for i := 0; i < t.Len(); i++ {
+		vs = append(vs, types.NewVar(token.NoPos, nil, "", strip(t.At(i).Type(), 0)))
+	}
+	return types.NewTuple(vs...)
 }
